@@ -191,6 +191,16 @@ def one_case(acc, plan, case, rowname, wordrepr):
         # UNPREDICTABLE / unmodelled: only totality and the C10 range invariant are required
         if res.exc is not None and not target.escape_ok(res.exc):
             acc.violation('%s:%s:host-error:%s' % (plan.prop, row, type(res.exc).__name__), case, {'exception': repr(res.exc)})
+        elif res.status == 'skip' and 'instruction fetch aborts' in str(res.detail) and res.exc is None and res.post is not None and res.step == 0:
+            # armulator reports an aborting instruction fetch through its Data Abort path (a Prefetch Abort is not implemented, so there is no exact
+            # oracle) - but whatever entry it takes, the SPSR of the mode it entered must hold the interrupted CPSR
+            pre, post = res.pre, res.post
+            m = post['cpsr'] & 31
+            name = gen.MODE_NAME.get(m)
+            acc.cls('fetch-abort')
+            if name and m != (pre['cpsr'] & 31) and ('spsr_' + name) in post and post['spsr_' + name] != pre['cpsr']:
+                acc.violation('%s:fetch-abort:spsr-is-not-the-interrupted-cpsr' % plan.prop, case,
+                              {'cpsr_before': pre['cpsr'], 'spsr_' + name: post['spsr_' + name], 'entered': name})
         return res
     if res.range_bad:
         acc.violation('%s:%s:out-of-range' % (plan.prop, row), case, {'keys': res.range_bad})
@@ -271,6 +281,9 @@ def shard_repeat(plan_ref, seed, examples):
     plan = getattr(importlib.import_module(mod), attr)
     acc = Acc()
     nrows = len(plan.rows)
+    t16rows = [r for r in plan.rows if ROWS[r][0] == 't16']
+    immrows = [r for r in plan.rows if (ROWS[r][0] == 'arm' and len(ROWS[r][1].fields.get('i', ())) == 12 and '_imm_' in r and not r.startswith(('LDR', 'STR', 'PLD', 'ADR'))) or
+               (ROWS[r][0] == 't32' and len(ROWS[r][1].fields.get('i', ())) == 12 and '_imm_' in r and r.endswith(('_T1', '_T2', '_T3')) and not r.startswith(('LDR', 'STR', 'PLD', 'ADR', 'ADDW', 'SUBW')))]
     strat = st.tuples(st.integers(0, nrows - 1), st.integers(0, 2 ** 32 - 1), st.integers(0, 2 ** 31 - 1), st.integers(0, 2 ** 64 - 1),
                       st.integers(0, len(plan.cfgs) - 1))
 
@@ -282,8 +295,20 @@ def shard_repeat(plan_ref, seed, examples):
         mx = mixed(ex)
         ri, raw, tweak, entropy, ci = mx.randrange(nrows), mx.getrandbits(32), mx.getrandbits(31), mx.getrandbits(64), mx.randrange(len(plan.cfgs))
         name = plan.rows[ri]
+        pick = mx.random()
+        if t16rows and pick < 0.3:
+            name = t16rows[mx.randrange(len(t16rows))]          # 16-bit encodings decide 'sets flags' from the IT position: the state most likely to be remembered wrongly
+        elif immrows and pick < 0.6:
+            name = immrows[mx.randrange(len(immrows))]          # modified-immediate forms take their shifter carry-out from APSR.C when the rotation is 0
         tn, row = ROWS[name]
         w = field_corner(row, build_word(row, raw, tweak), entropy)
+        if name in immrows and mx.random() < 0.6:
+            if tn == 'arm':
+                w &= ~(0xF << 8)                                 # rotation 0: carry-out = carry-in
+            else:
+                w &= ~((1 << 26) | (7 << 12))                    # i:imm3 = 0000: the 00XY pattern, carry-out = carry-in
+            if 'S' in row.fields and mx.random() < 0.7:
+                w |= 1 << row.fields['S'][0]
         rng = random.Random(entropy)
         cfgname = plan.cfgs[ci]
         thumb = tn != 'arm'
@@ -429,7 +454,7 @@ def run_plan(ctx, plan_ref, plan, shards=32, quick=120, thorough=2400, witnesses
     if witnesses:
         tasks += witness_tasks(ctx, plan_ref)
     if repeat:
-        tasks += [(shard_repeat, (plan_ref, ctx.shard_seed(900 + i), ctx.n(60, 1200))) for i in range(8)]
+        tasks += [(shard_repeat, (plan_ref, ctx.shard_seed(900 + i), ctx.n(120, 2400))) for i in range(8)]
     ctx.pmap(_dispatch, tasks)
     # minimise the first case of every violation bucket
     for b, v in list(ctx.acc.viol.items()):
